@@ -247,6 +247,29 @@ def alloc_wrapper(prog, usr):
     out = None
     for r in rets:
         n = g.nodes[g.strip(r['ch'][0], 'all')]
+        if n['k'] == 'DeclRefExpr' and n['decl'].get('dk') == 'local':
+            # `T* p = new T[n]; ...fill...; return p;` - the local that is handed back holds the fresh allocation (and is not released here)
+            from paths import local_init as _li
+            ini = _li(g, n['decl']['id'])
+            reassigned = [x for x in g.all_nodes({'BinaryOperator'}) if x.get('op') == '=' and g.nodes[g.strip(x['ch'][0], 'all')].get('decl', {}).get('id') == n['decl']['id']]
+            deleted = [x for x in g.all_nodes({'CXXDeleteExpr'}) if g.nodes[g.strip(x['arg'], 'all')].get('decl', {}).get('id') == n['decl']['id']]
+            if ini is not None and not reassigned and not deleted:
+                n = g.nodes[g.strip(ini, 'all')]
+        hops = 0
+        # std::shared_ptr<T>(new T(x)) / std::unique_ptr<T>(new T(x)): a smart pointer built around the fresh allocation
+        while n['k'] in ('CXXConstructExpr', 'CXXTemporaryObjectExpr', 'CXXFunctionalCastExpr', 'CXXBindTemporaryExpr', 'MaterializeTemporaryExpr', 'ExprWithCleanups') and hops < 6:
+            kids = n.get('args') if n['k'] in ('CXXConstructExpr', 'CXXTemporaryObjectExpr') else n.get('ch')
+            cls_ = str(n.get('callee', {}).get('class', ''))
+            if n['k'] in ('CXXConstructExpr', 'CXXTemporaryObjectExpr') and not (cls_.startswith('std::shared_ptr') or cls_.startswith('std::unique_ptr') or cls_.startswith('std::__shared_ptr')):
+                break
+            real = [k_ for k_ in (kids or []) if g.nodes[g.strip(k_, 'all')]['k'] != 'CXXDefaultArgExpr']
+            if len(real) != 1:
+                break
+            n = g.nodes[g.strip(real[0], 'all')]
+            hops += 1
+        if n['k'] == 'CallExpr' and n.get('callee', {}).get('qname') in ('std::make_shared', 'std::make_unique'):
+            out = n
+            continue
         if n['k'] != 'CXXNewExpr':
             return None
         out = n
